@@ -78,6 +78,19 @@ Section Statements.
     trees = merge_dir_full accept content_merge ts.
   Proof. exact (schedule_independent accept content_merge). Qed.
 
+  (** ... and no schedule can go on for ever: the completion of an item in flight strictly
+      decreases the remaining work, so at most [read_work] items complete, in any order,
+      before the merge of [ts] returns. *)
+  Theorem C07_schedule_bounded : forall (ts : list tree) (schedule : list (list N)),
+    Nat.odd (length ts) = true ->
+    (completions accept content_merge (ERead ts) schedule
+     <= read_work accept (max_tdepth ts) ts)%nat.
+  Proof.
+    intros ts schedule Hodd.
+    apply (completions_bounded accept content_merge schedule (max_tdepth ts) (ERead ts)).
+    split; [assumption|apply le_n].
+  Qed.
+
   (** merge_no_resolve (flatten + simplify) keeps the net count of every tree, hence of
       every value at every path. *)
   Theorem C07_merge_no_resolve_den : forall (mm : list (list tree)) p v,
@@ -187,6 +200,7 @@ Proof. vm_compute. repeat split. congruence. Qed.
 
 Print Assumptions C07_pathwise.
 Print Assumptions C07_schedule_independent.
+Print Assumptions C07_schedule_bounded.
 Print Assumptions C07_resolve_keeps_resolved.
 Print Assumptions C07_clash.
 Print Assumptions C07_conflict_free_iff.
